@@ -2,6 +2,7 @@
 //! proc-macro2 only - not on the macro crate's sources - so the specification side of the checks (the Lean parser model is fed from
 //! `ptoks`) keeps working when a change to the macro crate's own types stops the main harness from compiling.
 mod dump_syn;
+mod gated;
 mod toks_cmds;
 use std::io::{BufRead, Write};
 use toks_cmds::{flat_tokens, parser_input, unhex};
@@ -16,6 +17,8 @@ fn main() {
         let a = match t.first().copied() {
             Some("toks") => flat_tokens(&unhex(t.get(1).copied().unwrap_or("-"))),
             Some("ptoks") => parser_input(&unhex(t.get(1).copied().unwrap_or("-"))),
+            // gated <hex path> <module prefix | ->: the items of a runtime-crate source file with their feature gates (C16's translator)
+            Some("gated") => gated::gated(&unhex(t.get(1).copied().unwrap_or("-")), t.get(2).copied().unwrap_or("-")),
             _ => "bad-op".to_string(),
         };
         writeln!(out, "{}", a).unwrap();
